@@ -24,6 +24,10 @@ func allPropsUnsorted() []*propInfo {
 				"C07.6 (shared) AND / OR chains evaluate every term with the right short-circuit value. C14.3 / C14.6 (shared) the subscription's own expiry clock is restarted with its TTL (a subscription swept early takes its outstanding messages with it). NOT decided: clock arithmetic (that attempt_at/expires_at values make a message due again), database semantics, the history-level claim itself.",
 			Assumptions: []string{k1Assumption, "database executes the statements as ent renders them"},
 			Rules: []ruleFn{
+				{ID: "C15.1", Doc: "(shared: the expiry prune removes only deliveries whose retention has lapsed) [atoms] exact selection per job; threshold", Run: ruleC15_1},
+				{ID: "C14.1", Doc: "(shared: retention of a delivery is the message retention) [dep] creation timestamps", Run: ruleC14_1},
+				{ID: "C01.6", Doc: "[dep] completed_at is always set to the current time, never to a request value", Run: ruleC01_6},
+				{ID: "C15.2", Doc: "[who] (option) the schema is created with its foreign keys (no WithForeignKeys(false))", Run: ruleC15_2fkOption},
 				{ID: "C14.3", Doc: "(shared: a subscription swept before its TTL takes its outstanding messages with it) [dom] every pull restarts the subscription clock", Run: ruleC14_3},
 				{ID: "C14.6", Doc: "(shared: a subscription swept before its TTL takes its outstanding messages with it) [dep] every write of a subscription's expires_at is now + its expiration TTL (never the message retention)", Run: ruleC14_6},
 				{ID: "C07.6", Doc: "(shared) leaf and combinator shapes (idiom-bound)", Run: ruleC07_6},
@@ -71,6 +75,7 @@ func allPropsUnsorted() []*propInfo {
 				"C06.5 (shared) a nack selects only outstanding rows, so a late nack of an acked id neither forwards it to the dead-letter topic nor rewrites it. Deliberately not demanded: the completed_at IS NULL guard in modify-deadline (dropping it does not resurrect an acked message: the pull excludes completed rows). C01.2 (shared) ack statements are keyed by exactly the request's ids; C03.5 ack ids are converted completely and in place or the request fails; C04.9 (shared) no aliased predicate appends; C09.2 / C09.3 (shared) commit errors are reported. C03.6 every StreamingPull frame, the opening one included, reaches the streamer through adaptIn. C06.1 (shared) only pull, nack and the sweep dead-letter. NOT decided: the history-level claim.",
 			Assumptions: []string{k1Assumption},
 			Rules: []ruleFn{
+				{ID: "C02.2", Doc: "(shared: a mutation that is not scoped to the resolved subscription un-acks or acks other subscriptions' deliveries) [atoms] (shared) no delivery mutation reaches another subscription's rows: other subscriptions' acks/seeks cannot make a message disappear", Run: ruleC02_2},
 				{ID: "C06.1", Doc: "(shared: only pull, nack and the sweep may dead-letter: a modify-deadline that does so forwards deliveries a late nack must not touch) [who] callers of deadLetterDelivery", Run: ruleC06_1, Ctrl: true},
 				{ID: "C03.6", Doc: "[dep] every StreamingPull frame (the opening one included) reaches the streamer through adaptIn", Run: ruleC03_6},
 				{ID: "C04.9", Doc: "[alias] (shared) no predicate list is built by appending twice to one base slice with spare capacity", Run: ruleC04_9},
@@ -120,6 +125,8 @@ func allPropsUnsorted() []*propInfo {
 				"NOT decided: ties of published_at inside one batch, interplay with seek-to-snapshot, the history-level order itself.",
 			Assumptions: []string{k1Assumption},
 			Rules: []ruleFn{
+				{ID: "C13.1", Doc: "(shared: a backward seek re-opens only unexpired deliveries: an expired predecessor would be revived behind its successor) [atoms] seek-to-time is a partition", Run: ruleC13_1},
+				{ID: "C15.2", Doc: "[who] (option) the schema is created with its foreign keys (no WithForeignKeys(false))", Run: ruleC15_2fkOption},
 				{ID: "C01.5", Doc: "[who] (shared) the predecessor link and the attempt counter of a delivery are written by nobody but the creator / the pull", Run: ruleC01_5},
 				{ID: "C05.1", Doc: "[atoms] predecessor of the same key; exact lookup shape (C05.2)", Run: ruleC05_1_2},
 				{ID: "C05.3", Doc: "[dom] link set when found; errors returned", Run: ruleC05_3},
@@ -138,6 +145,7 @@ func allPropsUnsorted() []*propInfo {
 				"C17.4 (shared) a dead-letter topic is attached only as the entity a lookup returned for this request. C06.4 also: the retiring update is addressed by the delivery id and nothing else. NOT decided: 'exactly once' under concurrent PostgreSQL transactions, counting N over histories, topology effects.",
 			Assumptions: []string{k1Assumption},
 			Rules: []ruleFn{
+				{ID: "C06.7", Doc: "[dom] the attempt limit stored by an update is the request's value if non-zero, else the default", Run: ruleC06_7},
 				{ID: "C17.4", Doc: "[dep] (shared) a dead-letter topic is attached only from a lookup made for the request (live row), never from a cached edge", Run: ruleC17_4},
 				{ID: "C06.1", Doc: "[who] callers of deadLetterDelivery", Run: ruleC06_1, Ctrl: true},
 				{ID: "C06.2", Doc: "[dom][atoms] trigger condition", Run: ruleC06_2},
@@ -160,6 +168,7 @@ func allPropsUnsorted() []*propInfo {
 				"C12.5 also: the scanned rows are not sorted or overwritten before the page token is taken; C17.4 (shared). C12.7 every lookup of snapshots selects by name / id / prefix only (the siblings agree on which snapshots exist). NOT decided: races under PostgreSQL isolation levels, histories, 'inherits no backlog' beyond C12.3.",
 			Assumptions: []string{k1Assumption, "SQLite evaluates LIKE case-insensitively, PostgreSQL case-sensitively (documented behaviour)"},
 			Rules: []ruleFn{
+				{ID: "C15.5", Doc: "(shared: a topic's snapshots are removed with it, and only they) [atoms] child tables of topics that no job prunes are emptied, unconditionally, when the topic is deleted", Run: ruleC15_5},
 				{ID: "C12.7", Doc: "[atoms] every lookup of snapshots selects by name / id / prefix only: the siblings agree on which snapshots exist", Run: ruleC12_7},
 				{ID: "C17.4", Doc: "[dep] (shared) a dead-letter topic is attached only from a lookup made for the request (live row), never from a cached edge", Run: ruleC17_4},
 				{ID: "C12.1", Doc: "[atoms] live-only name resolution", Run: ruleC12_1, Ctrl: true},
@@ -181,6 +190,7 @@ func allPropsUnsorted() []*propInfo {
 				"C13.1 also: the acknowledging half of a seek rewrites completed_at only. NOT decided: the set equality over histories; join semantics of the id-list query.",
 			Assumptions: []string{k1Assumption},
 			Rules: []ruleFn{
+				{ID: "C01.6", Doc: "[dep] completed_at is always set to the current time, never to a request value", Run: ruleC01_6},
 				{ID: "C13.1", Doc: "[atoms] seek-to-time is a partition", Run: ruleC13_1},
 				{ID: "C13.2", Doc: "[atoms] seek-to-snapshot", Run: ruleC13_2},
 				{ID: "C13.3", Doc: "[dep] snapshot contents agree", Run: ruleC13_3},
@@ -217,6 +227,9 @@ func allPropsUnsorted() []*propInfo {
 				"NOT decided: metamorphic equality of traces, convergence at the fixpoint.",
 			Assumptions: []string{k1Assumption},
 			Rules: []ruleFn{
+				{ID: "C14.4", Doc: "(shared: a sweep that re-selects deleted subscriptions re-stamps them: they never age past the prune threshold) [atoms] expiry sweep", Run: ruleC14_4},
+				{ID: "C01.6", Doc: "[dep] completed_at is always set to the current time, never to a request value", Run: ruleC01_6},
+				{ID: "C15.2", Doc: "[who] (option) the schema is created with its foreign keys (no WithForeignKeys(false))", Run: ruleC15_2fkOption},
 				{ID: "C15.1", Doc: "[atoms] exact selection per job; threshold", Run: ruleC15_1},
 				{ID: "C15.2", Doc: "[tab] referential actions", Run: ruleC15_2},
 				{ID: "C15.3", Doc: "[tab] registry", Run: ruleC15_3},
@@ -282,6 +295,9 @@ func allPropsUnsorted() []*propInfo {
 				"only (time.Time).IsZero tests establish that a time is non-zero (CheckValid does not)",
 			},
 			Rules: []ruleFn{
+				{ID: "C09.2", Doc: "(shared: a request answered with an error changes nothing: the runner commits only on success) [dom] (shared) the transaction helper commits iff the operation succeeded and reports commit errors", Run: ruleC09_2},
+				{ID: "C16.7", Doc: "[dom] constant indexes into request-derived slices in package services are under a length test", Run: ruleC16_7},
+				{ID: "C16.8", Doc: "[dom] the pull's deferred clean-up dereferences params.ID only under a nil test", Run: ruleC16_8},
 				{ID: "C06.2", Doc: "(shared: the guard of the *DeadLetterTopicID dereference in deadLetterDataFromEntities) [dom][atoms] trigger condition", Run: ruleC06_2},
 				{ID: "C16.1", Doc: "[K6][K10] panic preconditions refuted at every request-tainted call site; nil dereference of absent sub-messages (C16.2)", Run: ruleC16},
 				{ID: "C16.4", Doc: "[K9b] the effective page size is ≥ 1 on every path (no index panic on an empty page)", Run: ruleC16_4},
@@ -343,6 +359,7 @@ func allPropsUnsorted() []*propInfo {
 				"C19.2 also: the rendered publish time carries its zone (zone verb or UTC conversion). NOT decided: 'never pushed again / pushed again after the backoff' (C03/C04 behaviour), concurrency <= window as a runtime count, out-of-order endpoints.",
 			Assumptions: []string{"net/http reports transport failures as a non-nil error from Client.Do"},
 			Rules: []ruleFn{
+				{ID: "C19.2", Doc: "[who] the pushed payload is standard base64", Run: ruleC19_2base64},
 				{ID: "C19.2", Doc: "[tab] the rendered publish time carries its zone (zone verb or UTC conversion)", Run: ruleC19_2format},
 				{ID: "C11.4", Doc: "[dom] (shared) the pusher's stream keeps its pending set exact (what is in flight counts against the window until the database says it is settled)", Run: ruleC11_4_7},
 				{ID: "C19.1", Doc: "[tab][dom] status mapping", Run: ruleC19_1},
@@ -363,6 +380,7 @@ func allPropsUnsorted() []*propInfo {
 				"C08.8 (shared) the filter parser is built with exactly UseLookahead and Unquote(String); C07.6 Term negation is a parity of Not flags. C08.1 (shared) the stored filter text is the validated text. NOT decided: agreement with the documented Pub/Sub semantics over the infinite input space, boolean laws, precedence as implemented by participle.",
 			Assumptions: []string{"participle builds the parser the struct tags describe", k1Assumption},
 			Rules: []ruleFn{
+				{ID: "C08.9", Doc: "[K7] the leaf forms accept the same kinds of attribute name; AND and OR are not mixable at one level", Run: ruleC08_9},
 				{ID: "C08.1", Doc: "(shared: the stored filter text is the validated text: the evaluated filter is the one the client wrote) [who][dom] validate before persist", Run: ruleC08_1},
 				{ID: "C08.8", Doc: "[who] the filter parser is built with exactly UseLookahead and Unquote(String): no option that changes the accepted language or rewrites tokens", Run: ruleC08_8},
 				{ID: "C08.6", Doc: "[dom] (shared) a filter text produced by the printer (canonical form) keeps the grouping of negated sub-conditions", Run: ruleC08_6},
@@ -385,6 +403,7 @@ func allPropsUnsorted() []*propInfo {
 				"C08.8 the filter parser is built with exactly UseLookahead and Unquote(String) (no option that changes the accepted language or rewrites tokens); C08.6 also: a negated term is printed with its NOT. NOT decided: 'accepted iff sentence of the documented grammar', parser totality/termination (third-party participle), full print/parse round-trip.",
 			Assumptions: []string{"participle builds the parser the struct tags describe; its lexer's identifier rule is text/scanner's (letter or '_' first, then letters/digits/'_')"},
 			Rules: []ruleFn{
+				{ID: "C08.9", Doc: "[K7] the leaf forms accept the same kinds of attribute name; AND and OR are not mixable at one level", Run: ruleC08_9},
 				{ID: "C08.8", Doc: "[who] the filter parser is built with exactly UseLookahead and Unquote(String): no option that changes the accepted language or rewrites tokens", Run: ruleC08_8},
 				{ID: "C08.7", Doc: "[compiler prove pass] no index / slice operation in package filter keeps an unproved bounds check", Run: ruleC08_7, Ctrl: true},
 				{ID: "C08.1", Doc: "[who][dom] validate before persist", Run: ruleC08_1},
@@ -403,6 +422,8 @@ func allPropsUnsorted() []*propInfo {
 				"C17.3 in the stored-duration codec no floating-point value computed from the parsed digits is truncated to an integer (a length-derived power of ten is exact and allowed; math.Round first is allowed) and a duration is never represented as a float (no Seconds/Minutes/Hours, FormatFloat/ParseFloat, or 64-bit-count-to-float conversion). C17.1 independence: the response field fed by column X sits under a test of X only, never of a sibling column (except attempts under the dead-letter topic). C17.2 also: the handlers switch on the mask's own path strings (a pass-through helper may fetch them, not compute new ones); C17.4 a dead-letter topic is attached only as the entity a lookup returned for this request, never a cached edge. C17.5 zero durations select the documented defaults (a comparison with 0, also in a shared helper); C17.3 also: Interval.Value writes the exact duration. NOT decided: the rest of the interval codec (all durations / all PostgreSQL interval strings — numeric), defaults' values, sequences of updates.",
 			Assumptions: []string{k1Assumption, "protobuf/ent field names correspond one-to-one as in the generated code"},
 			Rules: []ruleFn{
+				{ID: "C06.7", Doc: "[dom] the attempt limit stored by an update is the request's value if non-zero, else the default", Run: ruleC06_7},
+				{ID: "C17.3", Doc: "[tab] the interval pattern constant accepts PostgreSQL's renderings (singular and plural units)", Run: ruleC17_3pattern},
 				{ID: "C17.5", Doc: "[dom] zero durations select the documented defaults (a comparison with 0, not only a nil test)", Run: ruleC17_5},
 				{ID: "C17.3", Doc: "[who] Interval.Value writes the exact duration (no rounding)", Run: ruleC17_3value},
 				{ID: "C17.1", Doc: "[dep] create mapping is complete", Run: ruleC17_1},
